@@ -202,12 +202,12 @@ func (c CounterStyle) renderValue(counterValue int, counter *CounterStyleDescrip
 	case "symbolic":
 		initial, ok = symbolic(counter.Symbols, counterValue)
 		if !ok {
-			return c.RenderValue(counterValue, "decimal")
+			return c.renderValue(counterValue, c.resolveCounter(counter.fallback(), previousTypes), previousTypes)
 		}
 	case "alphabetic":
 		initial, ok = alphabetic(counter.Symbols, counterValue)
 		if !ok {
-			return c.RenderValue(counterValue, "decimal")
+			return c.renderValue(counterValue, c.resolveCounter(counter.fallback(), previousTypes), previousTypes)
 		}
 	case "numeric":
 		initial, ok = numeric(counter.Symbols, counterValue)
@@ -274,7 +274,7 @@ func nonRepeating(symbols []pr.NamedString, firstValue, value int) (string, bool
 
 // Implement the algorithm for `type: symbolic`.
 func symbolic(symbols []pr.NamedString, value int) (string, bool) {
-	if len(symbols) == 0 {
+	if len(symbols) == 0 || value < 1 { // defined on strictly positive values only
 		return "", false
 	}
 	L := len(symbols)
@@ -286,7 +286,7 @@ func symbolic(symbols []pr.NamedString, value int) (string, bool) {
 // Implement the algorithm for `type: alphabetic`.
 func alphabetic(symbols []pr.NamedString, value int) (string, bool) {
 	L := len(symbols)
-	if L < 2 {
+	if L < 2 || value < 1 { // defined on strictly positive values only
 		return "", false
 	}
 	reversedParts := []string{}
